@@ -48,4 +48,22 @@ PROPS = {
         "assumptions": ["G9.SrvSeq mirrors srv_srv.go/srv_fcall.go/srv_respond.go for sequential histories (checked by the differential run)",
                         "concurrent requests on one connection are the subject of C03/C07/C08/C11, not of this model"],
     },
+    "C05": {
+        "rule": "same sequential-history generator as C04 (fid absent/directory/file/auth x unopened/open in modes "
+                "{0,1,2,3,16,17,18,0x20,0x40,255} x every request type x permission classes incl. every special-file bit x "
+                "counts {0,1,m-25,m-24,m-23,2^31,2^32-24,2^32-1,random} x msize 24..8216 x dialect x AuthOps); the C05 oracle "
+                "(rules of the statement) is evaluated on the real framework's reply and call log from the fid state read "
+                "before the request. non-trivial = distinct histories with at least one non-error reply",
+        "modelled": ["modelled, not verified: sequential histories; effects-visible ordering across goroutines is M4's (C03) subject"],
+        "assumptions": ["G9.SrvSeq mirrors the guards of srv_fcall.go (checked by the differential run)"],
+    },
+    "C12": {
+        "rule": "same generator: server msize {24,25,31,64,128,4096,8216} x client msize {equal,+-1,23,24,25,8192,2^32-1,0} x "
+                "server dialect x version string {9P2000, 9P2000.u, 9P2000.L, empty, junk, '9P2000.u '}, renegotiation "
+                "mid-history (so recycled reply buffers predate the msize), every reply type incl. long Rstat/Rwalk/Rerror, "
+                "request frames longer than msize. Oracle: negotiated values, reply length <= msize, Rread <= count, "
+                "oversize frames dropped unexecuted. non-trivial = distinct histories with a non-error reply",
+        "modelled": ["modelled, not verified: client side (Connect) and the byte-level receive loop are covered by C09/C13"],
+        "assumptions": ["G9.SrvSeq mirrors Srv.version and the Respond* buffer checks (checked by the differential run)"],
+    },
 }
